@@ -331,6 +331,9 @@ func (vc *VC) processBlocks(fr *Frame, order []*ssa.BasicBlock, only *loopInfo) 
 				named[i] = vc.define(fmt.Sprintf("edge_%d_%d", preds[i].Index, b.Index), "Bool", c)
 			}
 			vc.reach = vc.define(fmt.Sprintf("reach_%s_b%d", sanitize(fr.fn.Name()), b.Index), "Bool", orTerms(named))
+			if len(named) >= 2 && len(named) <= 4 {
+				vc.merges = append(vc.merges, named)
+			}
 			vc.st = vc.mergeStates(named, states)
 			// phis over forward edges
 			phiVals := vc.phiValues(fr, b, preds, named)
@@ -556,13 +559,47 @@ func (vc *VC) enterLoop(fr *Frame, li *loopInfo, phiIn map[*ssa.Phi]*Val) {
 		if k == "alloc" {
 			oldA := vc.get("alloc", srt)
 			vc.havocStorage(k, srt)
-			vc.emit("(assert (forall ((r Int)) (=> (select %s r) (select %s r))))", oldA, vc.st.m[k])
+			vc.emit("(assert (>= %s %s))", vc.st.m[k], oldA)
 			continue
 		}
 		vc.havocStorage(k, srt)
 	}
 	if modified["__epoch"] {
 		vc.havocAll("loop body calls code without a contract")
+	}
+	// Frame: every write in the function under verification is checked against
+	// its modifies clause, so objects that existed at entry and are not named
+	// there still hold their entry values.
+	if vc.checkFrame && !vc.modAll && !modified["__epoch"] && vc.st.epoch == "" {
+		for _, k := range keys {
+			if !heapLike(k) || strings.HasPrefix(k, "G.") || strings.HasPrefix(k, "GV.") {
+				continue
+			}
+			srt := vc.p.storageSort[k]
+			if srt == "" {
+				continue
+			}
+			whole := false
+			var excl []string
+			for _, m := range vc.modLocs {
+				if m.Heap != k {
+					continue
+				}
+				if m.Idx == "" {
+					whole = true
+				} else {
+					excl = append(excl, fmt.Sprintf("(not (= r %s))", m.Idx))
+				}
+			}
+			if whole {
+				continue
+			}
+			cond := "(and (< 0 r) (< r alloc@0))"
+			if len(excl) > 0 {
+				cond = "(and (< 0 r) (< r alloc@0) " + strings.Join(excl, " ") + ")"
+			}
+			vc.emit("(assert (forall ((r Int)) (! (=> %s (= (select %s r) (select %s r))) :pattern ((select %s r)))))", cond, vc.st.m[k], vc.entryVersion(k, srt), vc.st.m[k])
+		}
 	}
 	for _, in := range li.header.Instrs {
 		phi, ok := in.(*ssa.Phi)
@@ -574,7 +611,7 @@ func (vc *VC) enterLoop(fr *Frame, li *loopInfo, phiIn map[*ssa.Phi]*Val) {
 			name = phi.Name()
 		}
 		v := &Val{T: vc.fresh("loop_"+name, vc.sortOf(phi.Type())), Ty: phi.Type()}
-		vc.assume(vc.rangeFact(v.T, v.Ty))
+		vc.valueFacts(v.T, v.Ty)
 		fr.vals[phi] = v
 		phiIn[phi] = v
 	}
@@ -687,6 +724,15 @@ func (vc *VC) valueOf(fr *Frame, v ssa.Value) *Val {
 		obj, _ := v.Object().(*types.Var)
 		if obj == nil {
 			return &Val{T: vc.fresh("global", "Int"), Ty: v.Type()}
+		}
+		if _, isArr := obj.Type().Underlying().(*types.Array); isArr {
+			// package-level arrays live in the element heap under a constant id
+			name := "garr_" + sanitize(obj.Pkg().Path()) + "_" + obj.Name()
+			if !vc.declared[name] {
+				vc.declare(name, fmt.Sprintf("(declare-const %s Int)", name))
+				vc.emit("(assert (and (> %s 0) (< %s alloc@0)))", name, name)
+			}
+			return &Val{T: name, Ty: v.Type()}
 		}
 		return &Val{Ty: v.Type(), Loc: vc.globalLoc(obj)}
 	case *ssa.Builtin:
@@ -1088,7 +1134,7 @@ func (vc *VC) unop(fr *Frame, in *ssa.UnOp, pos token.Pos) *Val {
 		v.PRoot, v.PFields = x.PRoot, x.PFields
 		// give the loaded value a name to keep terms small, and constrain it
 		nv := &Val{T: vc.define("ld_"+in.Name(), vc.sortOf(in.Type()), v.T), Ty: in.Type(), PRoot: x.PRoot, PFields: x.PFields}
-		vc.assume(vc.rangeFact(nv.T, nv.Ty))
+		vc.valueFacts(nv.T, nv.Ty)
 		if g, ok := in.X.(*ssa.Global); ok && g.Pkg != nil && vc.p.db.NonNilGlobalPkgs[g.Pkg.Pkg.Path()] {
 			switch vc.sortOf(in.Type()) {
 			case "Iface":
